@@ -56,6 +56,9 @@ C={
  'C14':('exploration','controlled-schedule stress with overlap monitor, deadlock (quiescence) detector, fid-lock hook, porcupine linearizability checking and the Go race detector',
         'Concurrent histories on the real SFileSys are produced by a gate inside the instrumented FS that releases one parked FS call at a time whenever every other goroutine is parked (PRNG choice), plus free-running histories; judged by the FS overlap/release monitors, a goroutine-state deadlock detector, the fid-table hook (no fid left locked), porcupine v1.3.0 against a non-deterministic sequential fid-table model, and race reports in sfilesys.go.',
         'trusted: path-based sequential model (props/c14.go) and its relations; interleavings inside the session own critical sections are left to the Go scheduler + race detector; porcupine timeouts are inconclusive'),
+ 'C15':('exploration','hostile-name workload under two observers: sentinel-tree snapshot/content monitor in-process, and a syscall-level path monitor (strace -f) on the server running in its own process',
+        'Hostile names in every name-carrying field from every depth, root removal/rename (also of an emptied export), special create bits and follow-up operations through every obtained fid are sent to the real ufs; in-process the sentinel tree next to the export must stay byte- and mtime-identical and nothing returned may be sentinel content; over a unix socket the same workload hits the server under strace and every path it passes to a file syscall after the serving marker must lie in the export root.',
+        'trusted: lexical cleaning of traced paths; symlinks excluded by the statement; strace availability (otherwise the traced half is inconclusive and the in-process observers decide)'),
  'C16':('exploration','exhaustive bounded enumeration against an independent stepwise resolver',
         'All name lists of length 0-4 over an 11-symbol alphabet of special forms x 4 directories are enumerated at run time (exhaustive for that space) plus sampled longer lists; every helper result is compared with a 20-line reference resolver.',
         'trusted: reference resolver; directories canonical'),
@@ -72,7 +75,7 @@ for i in ids:
           "replay_cmd_template":"cat {path}  # witness (input/schedule/history); re-run: VERIF_SEED=<seed in file> ./run.sh %s <tier>"%i,
           "engine":"harness","level_claimed":{"category":cat,"text":text,"design_ref":"DESIGN.md section 4, %s"%i},
           "level_note":note,"technique":tech})
-na=[{"property_id":i,"reason":"check not registered yet (harness under construction; planned monitor in DESIGN.md section 4)"} for i in ids if i not in C]
+na=[{"property_id":i,"reason":"no check registered"} for i in ids if i not in C]
 hooks=subprocess.run(['git','-C','/repo','log','--format=%h','--grep=^verif-hook:'],capture_output=True,text=True).stdout.split()
 m={"version":1,
  "setup_cmd":"cd /verif/harness && export GOFLAGS=-mod=mod GOPROXY=off GOSUMDB=off GOTOOLCHAIN=local && go build -tags verif -o /dev/null ./cmd/check && go build -race -tags verif -o /dev/null ./cmd/check",
